@@ -327,6 +327,38 @@ theorem start_fixed_at_first_evaluation (p : Proc V) (st : SelState V) (now : Na
     | initialized => exact this.elim
     | panic => exact this.elim
 
+/-- The property's own wording: "a timeout yields nil no earlier than its duration after the select
+    started waiting". `entry` is the clock at which the select was entered; the hypothesis says what
+    `start_at_entry_without_awaits` / `start_fixed_at_first_evaluation` give for a clock that does not
+    go backwards: a stored start time is never before the entry, and neither is `now`. -/
+theorem timeout_not_early_since_entry (p : Proc V) (st : SelState V) (now entry : Nat) (srcs : List (Source V))
+    (top : Yield V) (hsel : p.sel = some st) (hinv : Inv p.mailbox st) (hv : VerdictOf st top)
+    (hstart : ∀ s, st.startTime = some s → entry ≤ s) (hnow : entry ≤ now)
+    (p' : Proc V) (h : handleSelect p now srcs top = (p', .completed .nil)) :
+    ∃ ms, Source.timeout ms ∈ st.sources ∧ effDur ms ≤ now - entry := by
+  obtain ⟨ms, h1, h2⟩ := timeout_not_early p st now srcs top hsel hinv hv p' h
+  refine ⟨ms, h1, ?_⟩
+  cases hs : st.startTime with
+  | none => rw [hs] at h2; simp only [Option.getD_none] at h2; omega
+  | some s =>
+    have := hstart s hs
+    rw [hs] at h2; simp only [Option.getD_some] at h2; omega
+
+/-- … and that hypothesis is kept by every (re-)entry at a clock that is not before the entry. -/
+theorem start_never_before_entry (p : Proc V) (st : SelState V) (now entry : Nat) (srcs : List (Source V))
+    (top : Yield V) (hsel : p.sel = some st) (hinv : Inv p.mailbox st) (hv : VerdictOf st top)
+    (hstart : ∀ s, st.startTime = some s → entry ≤ s) (hnow : entry ≤ now)
+    (st' : SelState V) (hsel' : (handleSelect p now srcs top).1.sel = some st') :
+    ∀ s', st'.startTime = some s' → entry ≤ s' := by
+  intro s' hs'
+  have := start_fixed_at_first_evaluation p st now srcs top hsel hinv hv _ st' hsel' rfl
+  rw [this] at hs'
+  simp only [Option.some.injEq] at hs'
+  subst hs'
+  cases hs : st.startTime with
+  | none => simpa using hnow
+  | some s => simpa using hstart s hs
+
 /-! ## The cursor invariant -/
 
 /-- A message skipped by a cursor was rejected by that source — by type or by its filter. (Filters
